@@ -210,7 +210,7 @@ def dec(name, r):
         return d_opt(lambda x: [d_str(x[0]), d_str(x[1]), d_list(d_str, x[2]),
                                 [d_str(x[3][0]), d_str(x[3][1]), d_bool(x[3][2])], d_str(x[4]),
                                 d_opt(lambda y: [d_path(y[0]), d_str(y[1])], x[5])], r)
-    if name in ('path.relpath', 'path.string'):
+    if name in ('path.relpath', 'path.string', 'path.symlink_target'):
         return d_opt(lambda x: d_opt(d_str, x), r)
     if name == 'path.realize':
         return d_opt(d_str, r)
@@ -352,6 +352,8 @@ VAR_STRINGS = ['$(srcdir)', '/abs/dir', 'C:\\dir', '.', '', 'a/b', '${x}/y']
 def stage_w_rel(rep, rng, n):
     """relpath, realize, string, eq on both flavours."""
     P, W, roots, DestDir, BasePath, bpath = impl()
+    import types
+    from bfg9000.tools.copy_file import Symlink as SymlinkTool
     calls, res = [], []
     for _ in range(n):
         a, b = gen_same_root_pair(rng, rep)
@@ -367,6 +369,10 @@ def stage_w_rel(rep, rng, n):
                 r = None
             rep.case('rel:%d:%s' % (fl, json.dumps([a, b, prefix, loc])), True)
             calls.append(('path.relpath', [fl, a, b, prefix, loc])); res.append(r)
+            # the link target of a symbolic-link copy of a to b (tools/copy_file.py Symlink.transform_input on the real
+            # class; a Path result is the ValueError branch)
+            t = SymlinkTool.transform_input(None, types.SimpleNamespace(path=pa), types.SimpleNamespace(path=pb))
+            calls.append(('path.symlink_target', [fl, a, b])); res.append(None if isinstance(t, BasePath) else t)
             calls.append(('path.eq', [a, b])); res.append(pa == pb)
             if (pa == pb) and hash(pa) != hash(pb):
                 rep.fail('equal paths with different hashes: %r %r' % (a, b), {'exprs': [a, b], 'law': 'eq_hash'})
